@@ -118,7 +118,7 @@ def run(ctx: vlib.Ctx):
     ctx.theorems("props/C17_closed.vo", ["C17_closed_sound", "C17_attrs_closed_sound", "C17_binding_partial", "C17_same_name_refuted",
                                           "C17_binding_refuted", "C17_clean_id_refuted", "C17_shard_sound", "C17_binding", "C17_first_import_wins_refuted",
                                           "C17_prepopulated_refuted", "C17_not_at_qualname_refuted", "C17_local_root_refuted",
-                                          "C17_binding_chain_refuted", "C17_binding_ok_sound", "C17_assembly_ok_sound"])
+                                          "C17_binding_chain_refuted", "C17_binding_ok_sound", "C17_assembly_ok_sound", "C17_render_named", "C17_render_chain"])
     ctx.coqchk(["VerifProps.C17_closed"])
     ctx.trusted += [
         "harness/c17_translate.py: Python ast -> Closed.v AST (fail-closed; interning of names is injective by construction); "
@@ -212,6 +212,9 @@ def run(ctx: vlib.Ctx):
         ctx.count(("prog", hash(t)), n=0)
     ctx.hist("programs", "captured", len(programs))
     ctx.hist("programs", "distinct-modulo-uuid", len(texts))
+
+    # ---- type_name model vs implementation, and vs the text of the generated error paths
+    render_corr(ctx, all_res)
 
     # ---- per-program kernel-checked closedness (translation validation)
     t_workers = time.time() - t_start
@@ -412,6 +415,36 @@ def _parse_lists(out: str) -> list[list[int]]:
         body = m.group(1).strip()[1:-1].strip()
         res.append([int(x.replace("%nat", "").strip()) for x in body.split(";")] if body else [])
     return res
+
+
+def render_corr(ctx, all_res):
+    cases = []
+    checked = 0
+    missing = []
+    for fam, r in all_res:
+        for term, exp in r.get("render_cases", []):
+            cases.append((term, exp))
+        rc = r.get("render_contain") or {}
+        checked += rc.get("checked", 0)
+        missing += [f"{fam}/{r['idx']} {m}" for m in rc.get("missing", [])]
+    cs = list(dict.fromkeys(cases))
+    ctx.hist("render", "annotations-read", len(cases))
+    bad, log = vlib.coq_bad_idx(f"c17_render_{ctx.seed}", "Render", "", "", [f"({t}, {vlib.coq_str(e)})" for t, e in cs],
+                                "fun c => String.eqb (render false (fst c)) (snd c)", "rty * string", shard=700, needs=["theories/Render.vo"])
+    name = "Render.render (model of type_name) vs mashumaro type_name on the field annotations of the generated schemas"
+    if bad is None:
+        ctx.correspondence(name, len(cs), -1, log)
+        ctx.not_shown("correspondence type_name model", log)
+    else:
+        ctx.correspondence(name, len(cs), len(bad), "; ".join(cs[i][1] for i in bad[:6]))
+        if bad:
+            ctx.not_shown("correspondence type_name model", "model and implementation render differently: " + "; ".join(f"{cs[i][1]!r} <- {cs[i][0][:200]}" for i in bad[:5]))
+    ctx.correspondence("the rendering occurs verbatim (or through clean_id) in the MissingField path of the generated from_dict of every required field",
+                       checked, len(missing), "; ".join(missing[:6]))
+    ctx.obligation("generated error paths contain the modelled rendering of the field type", not missing, "; ".join(missing[:6]))
+    if missing:
+        ctx.not_shown("rendering in generated error paths", "; ".join(missing[:10]))
+    ctx.count(n=len(cs))
 
 
 def clean_id_corr(ctx):
